@@ -425,6 +425,65 @@ func checkC04(p *Prog, res *Result, tier string) {
 			}
 		}
 	}
+	// R1 (converse): what a summarised allocator returns in its revision position is an allocated revision or 0 - never
+	// some other revision (the committed one, the client's): the sink would file the outcome under a revision that was
+	// not allocated for it, i.e. into a slot the sequencer has consumed already or will consume for another write
+	for f, idx := range a.allocRet {
+		if f.Blocks == nil {
+			continue
+		}
+		n := 0
+		for _, b := range f.Blocks {
+			ret, ok := b.Instrs[len(b.Instrs)-1].(*ssa.Return)
+			if !ok || idx >= len(ret.Results) {
+				continue
+			}
+			n++
+			var bad ssa.Value
+			var walk func(v ssa.Value, d int, seen map[ssa.Value]bool)
+			walk = func(v ssa.Value, d int, seen map[ssa.Value]bool) {
+				v = resolve(v)
+				if v == nil || d > 8 || seen[v] || bad != nil {
+					return
+				}
+				seen[v] = true
+				switch x := v.(type) {
+				case *ssa.Phi:
+					for _, e := range x.Edges {
+						walk(e, d+1, seen)
+					}
+				case *ssa.UnOp:
+					// a named result spilled to a cell: the stores that can reach this return
+					if cell, ok := x.X.(*ssa.Alloc); ok && x.Op == token.MUL {
+						if sts, _, ok := reachingStores(cell, x); ok {
+							for _, st := range sts {
+								walk(st.Val, d+1, seen)
+							}
+						}
+					}
+				case *ssa.Call:
+					if p.isCallToMethod(x, r.TSOGetRevision) || p.isCallToMethod(x, r.BGetCur) {
+						bad = x
+					}
+				case *ssa.Parameter:
+					if isUint64(x.Type()) {
+						bad = x
+					}
+				}
+			}
+			walk(ret.Results[idx], 0, map[ssa.Value]bool{})
+			construct := fmt.Sprintf("%s: result #%d is an allocated revision or 0 (return in block %d)", funcName(f), idx, b.Index)
+			if bad != nil {
+				what := "a revision handed in by the caller"
+				if _, isCall := bad.(*ssa.Call); isCall {
+					what = "the committed revision"
+				}
+				res.bad("C04-R1", construct, p.pos(ret.Pos()), "the function hands allocated revisions to its callers in this result, but this return puts "+what+" there: the sink then stores the outcome into the slot of a revision that was not allocated for it (a slot already consumed, or another write's), and the committed revision moves backwards or stalls")
+			} else {
+				res.ok("C04-R1", construct, p.pos(ret.Pos()), "allocated revision, zero, or a value derived from them")
+			}
+		}
+	}
 	res.Stats["primitive_allocation_sites"] = prim
 	if prim < 2 {
 		res.und("C04-R1", "primitive allocation sites", "-", fmt.Sprintf("found %d invoke sites of tso.TSO.Deal, expected at least 2", prim))
